@@ -13,7 +13,12 @@ pub fn gen(r: &mut Rng) -> Value {
     let mut ops = vec![];
     for _ in 0..n {
         let copy: Vec<String> = (0..r.below(3)).map(|_| r.pick(&NAMES).to_string()).collect();
-        let op = match r.below(13) {
+        let op = match r.below(14) {
+            13 => {
+                let k = 2 + r.below(3);
+                let vals: Vec<String> = (0..k).map(|_| r.pick(&["1", "two", "x y", "false", "", " ", "0", "no", "NO", "False", "or", "yes"]).to_string()).collect();
+                json!({"op": "set_or", "name": r.pick(&NAMES), "vals": vals})
+            }
             12 => json!({"op": "all_names", "out": r.pick(&["names", "a", "p::x"])}),
             0..=2 => json!({"op": "set", "name": r.pick(&NAMES), "value": r.pick(&VALS)}),
             3 => json!({"op": "set_by_name", "name": r.pick(&NAMES), "value": r.pick(&VALS)}),
@@ -57,6 +62,14 @@ pub fn run(input: &Value) -> Option<Value> {
                 let v = op["value"].as_str()?;
                 vars.insert(name.to_string(), v.to_string());
                 format!("{} = set {}", name, q(v))
+            }
+            "set_or" => {
+                // `set v1 or v2 ..`: the first truthy value, else the last one
+                let vals: Vec<String> = op["vals"].as_array()?.iter().map(|x| x.as_str().unwrap_or("").to_string()).collect();
+                let truthy = |s: &str| { let l = s.to_lowercase(); !(l.is_empty() || l == "0" || l == "false" || l == "no") };
+                let v = vals.iter().find(|v| truthy(v)).cloned().unwrap_or_else(|| vals[vals.len() - 1].clone());
+                vars.insert(name.to_string(), v);
+                format!("{} = set {}", name, vals.iter().map(|v| q(v)).collect::<Vec<_>>().join(" or "))
             }
             "set_by_name" => {
                 let v = op["value"].as_str()?;
